@@ -31,7 +31,12 @@ def _memo(it, key, build):
     return m[key]
 
 
+_KEEP = []
+
+
 def _tid(t):
+    """Identity of a term for memo keys.  The term is kept alive: z3 recycles ast ids."""
+    _KEEP.append(t)
     return t.get_id() if hasattr(t, "get_id") else id(t)
 
 
@@ -177,7 +182,7 @@ def encode_model(it, recv: VStr, args, kwargs):
     if enc == "ascii":
         # may raise UnicodeEncodeError: modelled by the predicate `is_ascii`
         isa = uf("is_ascii", STR, BOOL)
-        if not it.path.branch(isa(recv.t)):
+        if not it.spec_mode and not it.path.branch(isa(recv.t)):
             it.raise_builtin("UnicodeEncodeError")
     return out
 
